@@ -169,7 +169,7 @@ func init() {
 		Jobs: replicaJobs("C01",
 			[]map[string]string{
 				{"leader": "staking", "plans": c01plans + ",racenoise", "ops": "160", "stores": "1"},
-				{"leader": "didreg", "plans": "plain,clock3600,clock-86400,noise-1", "ops": "120"},
+				{"leader": "didreg", "plans": "plain,clock3600,clock-86400,noise-1,restart3", "ops": "120"},
 				{"leader": "life:mixed", "plans": "plain,plain-2,clock3600,noise-1,restart401", "ops": "30"},
 				{"leader": "authz", "plans": "plain,noise-1,noise-2,restart5", "rounds": "1", "relayers": "1"},
 				{"leader": "renewals:multiversion-migrate", "plans": "plain,plain-2,plain-3,plain-4,noise-1"},
